@@ -40,6 +40,8 @@ REG = {
          "PARTIAL: 'within one quantum of each accepted point' is not a Lean theorem; it is implied for the implementation by the byte-exact agreement with the model's floor(x/scale) quantisation, whose one-quantum property is plain arithmetic but not yet stated in Lean. That validation of the target implies success of every split piece (midpoints lie between representable points) relies on monotonicity of float rounding (not proven)."),
  "C20": ("Bit-exact model (every float step through roundF32) compared exactly with the implementation: scale update on boundary grids k*32767, k*32767+-1 and float neighbours; seconds->ms incl. 4294967 s and neighbours; interval/box expansion; colour interpolation by exhaustive rows (all second values x 33 ratios per first value) and seeded ratios in and outside [0,1]; RGBW min-subtraction/fixed/reference by exhaustive rows (thorough: all 2^24 colours); buffer: all operation sequences up to length 3/4 over small sizes for owned buffers and views, state compared after every op. The documented contracts are re-checked on the model's answers (least scale, between-ness, reference <= original, never-inverted). Travel time: compared with the exact profile without sqrt (squared comparison) incl. the regime boundary; monotonicity on dense float neighbourhoods. Lean 4 theorems: buffer refinement (contents survive growth, capacity never lowered by growth, a view can be neither grown nor shrunk, shrinking keeps the prefix), RGBW minimum subtraction, interval never inverted / collapses, and over the reals the travel-time profile: the code's cruise expression, continuity at the regime boundary, monotonicity in the distance.",
          "PARTIAL for sqrtf (not modelled; squared comparison). least-scale / between-ness / reference<=original are run-time contract checks on the bit-exact model rather than Lean theorems (they depend on monotonicity of float rounding)."),
+ "C12": ("Bit-exact model of sb_trajectory_init_from_rth_plan_entry (scale selection, float additions, seconds->ms, builder) whose bytes are compared exactly with the implementation; on those bytes the property's claims are checked: total duration = sum of the phases in whole milliseconds, and positions probed along every leg lie within one quantum of the ideal path (plus the half-millisecond-per-split-level timing of legs longer than 60 s). Lean 4 theorems: which phases a conversion consists of, in which order and with which targets, per action (landing: no leg; keep-altitude: x,y only; with-altitude: neck first, then target point and altitude; the neck is purely vertical), durations converted when the phase is reached (negative/NaN -> invalid, infinite/too long -> overflow, unknown action -> invalid), every hold/leg duration preserved exactly by chunking/splitting (C16).",
+         "PARTIAL: 'within one quantum of the ideal path' and 'total = sum of phases' are run-time contract checks on the exactly predicted bytes, not Lean theorems. Instants of zero-duration legs are not probed (property text)."),
 }
 
 checks = []
